@@ -152,7 +152,7 @@ func genC13(r *Rand, n int, thorough bool, emit func(string)) {
 			}
 		}
 	}
-	offsets := []int{0, 0, 0, 1000000000, -1000000000, 1000000000000, -1000000000000}
+	offsets := []int{0, 0, 0, 1000000000, -1000000000, 1000000000000, -1000000000000, 1 << 60, -(1 << 60), 1712345678001234567, 9007199254740993}
 	for i := 0; i < n; i++ {
 		if i%97 == 96 {
 			// a stepped block, then a long contiguous range (2049-6000 values) over it, either direction
@@ -402,10 +402,33 @@ func genFrameRanges(r *Rand, n int, thorough, multi bool, emit func(string)) {
 		}
 		rec(nil, 0)
 	}
-	for _, t := range []string{"+5", "+0", "+0010", "+1-10", "1-+5", "1,+5", "+5#", " +5", "1-5x+2", "-+5", "+-5"} {
+	for _, t := range []string{"1-10,5-5x0", "7,7-7x0", "-5-5,-3--3:0", "1-10,5-5y0", "3,3-3x0,4", "+5", "+0", "+0010", "+1-10", "1-+5", "1,+5", "+5#", " +5", "1-5x+2", "-+5", "+-5"} {
 		emit(fsOp(r, t, "-"))
 	}
 	for i := 0; i < n; i++ {
+		if i%61 == 17 {
+			// frame numbers beyond 2^53 (nanosecond time stamps): float64 cannot tell neighbours apart
+			B := r.PickInt([]int{1712345678001234000, 1 << 60, 9007199254740992, -(1 << 59)})
+			k := r.Range(1, 4)
+			var ts, as []string
+			for j := 0; j < k; j++ {
+				a, b := B+r.Range(0, 40), B+r.Range(0, 40)
+				switch r.Intn(3) {
+				case 0:
+					ts = append(ts, strconv.Itoa(a))
+					as = append(as, fmt.Sprintf("s:%d", a))
+				case 1:
+					ts = append(ts, fmt.Sprintf("%d-%d", a, b))
+					as = append(as, fmt.Sprintf("r:%d:%d", a, b))
+				default:
+					st := r.Range(2, 5)
+					ts = append(ts, fmt.Sprintf("%d-%dx%d", a, b, st))
+					as = append(as, fmt.Sprintf("c:%d:%d:x:%d", a, b, st))
+				}
+			}
+			emit(fsOp(r, strings.Join(ts, ","), strings.Join(as, "/")))
+			continue
+		}
 		if i%97 == 41 {
 			// two stepped components with the same step where the second starts exactly one step
 			// after the WRITTEN end of the first, which is off the first one's grid
